@@ -203,6 +203,55 @@ def segment_kinds():
     return kinds
 
 
+BIMG = "spsdk/image/bootable_image/bimg.py"
+
+
+def setter_structure():
+    """Which paths of the `BootableImage.init_offset` setter recompute the segments' `excluded` flags (`self._update_segments()`):
+    -> (on the `offset == 0` path, on the non-zero path, note).  Path-wise reading of the setter's AST: a call at the top level of the
+    function body (after the branches) serves both paths; a call inside the `== 0` branch / its `else` serves that path only."""
+    tree = parse(BIMG)
+
+    def is_update(st):
+        return (isinstance(st, ast.Expr) and isinstance(st.value, ast.Call) and isinstance(st.value.func, ast.Attribute)
+                and st.value.func.attr == "_update_segments")
+
+    def zero_test(test):
+        """+1: test is `<x> == 0`, -1: `<x> != 0` / `<x>` truthiness, 0: something else"""
+        if isinstance(test, ast.Compare) and len(test.ops) == 1 and isinstance(test.comparators[0], ast.Constant) and test.comparators[0].value == 0:
+            return 1 if isinstance(test.ops[0], ast.Eq) else -1 if isinstance(test.ops[0], (ast.NotEq, ast.Gt)) else 0
+        if isinstance(test, ast.UnaryOp) and isinstance(test.op, ast.Not) and isinstance(test.operand, ast.Name):
+            return 1
+        if isinstance(test, ast.Name):
+            return -1
+        return 0
+
+    def paths(stmts):
+        """(zero path updates, non-zero path updates) for a statement list executed on both paths"""
+        z = n = False
+        for st in stmts:
+            if is_update(st):
+                z = n = True
+            elif isinstance(st, ast.If):
+                k = zero_test(st.test)
+                bz, bn = paths(st.body)
+                oz, on = paths(st.orelse)
+                if k == 1:
+                    z, n = z or bz, n or on
+                elif k == -1:
+                    z, n = z or oz, n or bn
+                else:   # a branch not about zero (e.g. the negative-offset guard): counts only when both arms update
+                    z, n = z or (bz and oz), n or (bn and on)
+        return z, n
+
+    for cls in (x for x in tree.body if isinstance(x, ast.ClassDef) and x.name == "BootableImage"):
+        for fn in (x for x in cls.body if isinstance(x, ast.FunctionDef) and x.name == "init_offset"):
+            if any(isinstance(d, ast.Attribute) and d.attr == "setter" for d in fn.decorator_list):
+                z, n = paths(fn.body)
+                return z, n, f"{BIMG}:{fn.lineno}"
+    return False, False, "init_offset setter not found"
+
+
 def fcb_tags():
     tree = parse(FCBPY)
     for n in ast.walk(tree):
@@ -312,13 +361,17 @@ def gen_BimgTables():
     o.append(",\n".join(f"  ⟨{lstr(r['family'])}, {lstr(r['revision'])}, {lstr(r['mem_type'])}, {r['layout']}, "
                         f"{str(r['fcb_supported']).lower()}, {str(r['usable']).lower()}⟩" for r in rows))
     o.append("]\n")
+    upd0, updn, where = setter_structure()
+    o.append(f"/-- the `init_offset` setter calls `_update_segments()` on its `offset == 0` path / on its non-zero path ({where}) -/")
+    o.append(f"def setterUpdatesOnZero : Bool := {str(upd0).lower()}")
+    o.append(f"def setterUpdatesOnNonZero : Bool := {str(updn).lower()}")
     o.append(f"def fcbTag : List UInt8 := {lbytes(tag)}")
     o.append(f"def fcbTagSwapped : List UInt8 := {lbytes(tag_sw)}")
     o.append("def memTypes : List String := [" + ", ".join(lstr(m) for m in mts) + "]")
     o.append("\nend SpsdkVerif.Generated.BimgTables")
     meta = {"kinds": kinds, "layouts": [{"segs": [[k, off] for k, off in segs], "pattern": pat} for segs, pat in layouts],
             "rows": rows, "fcb_tag": tag.hex(), "fcb_tag_swapped": tag_sw.hex(), "mem_types": mts, "problems": problems,
-            "fcb_families": sorted(fcb_fams),
+            "fcb_families": sorted(fcb_fams), "setter_updates": [upd0, updn, where],
             "source": ["spsdk/data/devices/*/database.yaml", "spsdk/data/common/database_defaults.yaml", SEG, FCBPY, MEM]}
     emit("BimgTables", "\n".join(o) + "\n", meta)
 
